@@ -129,15 +129,23 @@ def below(name, hi):
     return v
 
 
-def symbols(n, par, ordered):
+FIXED_SNS = [7, 3, 9, 1, 5]
+
+
+def symbols(n, par, ordered, fixed_sns=False):
     """symbolic contents of the n nodes.  Serial numbers pairwise different (parameter collections hand them out from a
-    counter); a circle's inner diameter below its outer one.  ordered=True: every child sits at a location above its
-    previous sibling's and (components) has a larger outer diameter - i.e. the child lists are in the order in which
+    counter) - symbolic, or with fixed_sns the concrete numbers 7, 3, 9, 1, 5 (the 5-node lemmas: the dictionary keyed
+    by symbolic serial numbers is what makes them slow; the layout code only stores them and uses them as keys); a
+    circle's inner diameter below its outer one.  ordered=True: every child sits at a location above its previous
+    sibling's and (components) has a larger outer diameter - i.e. the child lists are in the order in which
     Composite.__lt__ / Component.__lt__ sort; ordered=False: locations and diameters of siblings are unrelated."""
-    sns = [sym_int("sn%d" % m) for m in range(n)]
-    for m in range(n):
-        for q in range(m):
-            assume(sns[m] != sns[q])
+    if fixed_sns:
+        sns = FIXED_SNS[:n]
+    else:
+        sns = [sym_int("sn%d" % m) for m in range(n)]
+        for m in range(n):
+            for q in range(m):
+                assume(sns[m] != sns[q])
     locs, temps = [], []
     for m in range(n):
         prev = [x for x in kids(n, par, par[m]) if x < m] if m > 0 else []
@@ -165,11 +173,53 @@ def same_seq(xs, ys):
     return True
 
 
-def check_layout_in_child_order(n, par, tmask, ordered):
-    """the layout of the tree must be the pre-order walk IN CHILD ORDER.  `ordered`: the children of every node sit at
-    strictly increasing locations (hypothesis of the first two lemmas; not of the finding lemma)"""
+def both(a, b):
+    """conjunction of two already evaluated conditions (one obligation per topic instead of one per node)"""
+    return a and b
+
+
+def row_is(lay, sn, q):
+    """Layout[sn] is the q-th entry of every list"""
+    row = lay[sn]
+    c1 = len(row) == 9 and row[0] == lay.type[q] and row[1] == lay.name[q] and row[5] == lay.locationType[q] and row[8] == lay.material[q]
+    c2 = row[2] == lay.serialNum[q]
+    c3 = row[3] == lay.indexInData[q]
+    c4 = row[4] == lay.numChildren[q]
+    c5 = same(row[6], lay.location[q])
+    c6 = same(row[7], lay.temperatures[q])
+    return both(both(both(c1, c2), both(c3, c4)), both(c5, c6))
+
+
+def own_entries_ok(lay, q, j, c, n, par, sns, locs, temps):
+    """the entries of object j, found at position q: class, name, serial number, number of children, location, grid
+    index, temperatures, material"""
+    c1 = lay.type[q] == c.__name__ and lay.name[q] == "n%d" % j and lay.gridIndex[q] is None
+    c2 = lay.serialNum[q] == sns[j]
+    c3 = lay.numChildren[q] == len(kids(n, par, j))
+    if j == 0:
+        loc = tuple(lay.location[q])
+        c4 = lay.locationType[q] == layout.LOC_COORD and len(loc) == 3
+        c5 = both(loc[0] == 0.0, both(loc[1] == 0.0, loc[2] == 0.0))
+    else:
+        loc = tuple(lay.location[q])
+        c4 = lay.locationType[q] == layout.LOC_INDEX and len(loc) == 3
+        c5 = both(loc[0] == locs[j], both(loc[1] == 0, loc[2] == 0))
+    t = lay.temperatures[q]
+    if c is Circle:
+        c6 = lay.material[q] == "Mat" and len(t) == 2
+        c7 = both(t[0] == temps[j][0], t[1] == temps[j][1])
+    else:
+        c6 = lay.material[q] == "" and len(t) == 2
+        c7 = both(t[0] == -900, t[1] == -900)
+    return both(both(both(c1, c2), both(c3, c4)), both(c5, both(c6, c7)))
+
+
+def check_layout_in_child_order(n, par, tmask, ordered, fixed_sns=False):
+    """the layout of the tree must be the pre-order walk IN CHILD ORDER.  `ordered`: the children of every node are
+    already in the order of Composite.__lt__ / Component.__lt__ (hypothesis of the lemmas of this file; not of the
+    finding lemma in contracts/pending)"""
     bits = bits_of(n, tmask)
-    sns, locs, temps = symbols(n, par, ordered)
+    sns, locs, temps = symbols(n, par, ordered, fixed_sns)
     nodes = mk_tree(n, par, bits, sns, locs, temps)
     lay = Layout((layout.DB_MAJOR, layout.DB_MINOR), comp=nodes[0])
     pre = preorder(n, par, 0)
@@ -177,25 +227,19 @@ def check_layout_in_child_order(n, par, tmask, ordered):
     for lst in (lay.type, lay.name, lay.serialNum, lay.indexInData, lay.numChildren, lay.locationType, lay.location,
                 lay.gridIndex, lay.temperatures, lay.material):
         assert len(lst) == n, "one entry per object in every layout list"
+    order_ok, own_ok, index_ok = True, True, True
     for q in range(n):
         j = pre[q]
         c = cls_of(n, par, j, bits)
-        assert lay.serialNum[q] == sns[j], "serial numbers in pre-order, children in child order"
-        assert lay.name[q] == "n%d" % j, "names in pre-order"
-        assert lay.type[q] == c.__name__, "class names in pre-order"
-        assert lay.numChildren[q] == len(kids(n, par, j)), "number of direct children"
+        is_j = lay.serialNum[q] == sns[j]
+        order_ok = both(order_ok, is_j)
+        own_ok = both(own_ok, own_entries_ok(lay, q, j, c, n, par, sns, locs, temps))
         same_type_before = [r for r in range(q) if cls_of(n, par, pre[r], bits) is c]
-        assert lay.indexInData[q] == len(same_type_before), "indexInData counts the objects of the same class laid out before"
-        assert lay.gridIndex[q] is None, "an object without grid has no grid index"
-        if j == 0:
-            assert lay.locationType[q] == layout.LOC_COORD and tuple(lay.location[q]) == (0.0, 0.0, 0.0)
-        else:
-            assert lay.locationType[q] == layout.LOC_INDEX and tuple(lay.location[q]) == (locs[j], 0, 0), "own location"
-        if c is Circle:
-            assert lay.temperatures[q] == (temps[j][0], temps[j][1]), "input and hot temperature of a component"
-            assert lay.material[q] == "Mat", "class name of the material"
-        else:
-            assert lay.temperatures[q] == (-900, -900) and lay.material[q] == "", "objects without material: the documented filler"
+        is_k = lay.indexInData[q] == len(same_type_before)
+        index_ok = both(index_ok, is_k)
+    assert order_ok, "serial numbers in pre-order, children in child order"
+    assert own_ok, "every object's own entries (class, name, children, location, temperatures, material) at its pre-order position"
+    assert index_ok, "indexInData counts the objects of the same class laid out before"
     # grouping by class: the objects of each class in layout order (what Database._writeParams iterates)
     for c in (Composite, Assembly, Circle):
         want = [nodes[j] for j in pre if cls_of(n, par, j, bits) is c]
@@ -204,92 +248,108 @@ def check_layout_in_child_order(n, par, tmask, ordered):
     assert len([c for c in lay.groupedComps]) == len(set(cls_of(n, par, j, bits).__name__ for j in range(n)))
     # the way back: parents from the flat lists = the real parents (round trip `same tree ... child order`)
     anc = Layout.computeAncestors(lay.serialNum, lay.numChildren)
-    assert len(anc) == n
-    for q in range(n):
-        j = pre[q]
-        if j == 0:
-            assert anc[q] is None, "the root has no parent"
-        else:
-            assert anc[q] is not None and anc[q] == nodes[j].parent.p.serialNum, "the real parent"
+    assert len(anc) == n and anc[0] is None, "the root has no parent"
+    anc_ok = True
+    for q in range(1, n):
+        assert anc[q] is not None
+        is_p = anc[q] == nodes[pre[q]].parent.p.serialNum
+        anc_ok = both(anc_ok, is_p)
+    assert anc_ok, "computeAncestors on the created layout: the real parent of every object"
     # look-up by serial number
+    rows_ok = True
     for q in range(n):
-        j = pre[q]
-        row = lay[sns[j]]
-        assert len(row) == 9
-        assert row[0] == lay.type[q] and row[1] == lay.name[q] and row[2] == sns[j] and row[3] == lay.indexInData[q]
-        assert row[4] == lay.numChildren[q] and row[5] == lay.locationType[q] and tuple(row[6]) == tuple(lay.location[q])
-        assert row[7] == lay.temperatures[q] and row[8] == lay.material[q], "Layout[sn]: that object's row"
+        rows_ok = both(rows_ok, row_is(lay, sns[pre[q]], q))
+    assert rows_ok, "Layout[sn]: that object's row"
 
 
-NVEC = {1: 1, 2: 1, 3: 2, 4: 6}
-
-
-@lemma(gen={"n": (1, 4), "p2": (0, 1), "p3": (0, 2), "tmask": (0, 15)}, stubs=STUBS)
-def layout_is_the_preorder_walk_up_to_4_nodes(n: int, p2: int, p3: int, tmask: int):
-    """every tree shape with <= 4 nodes x EVERY assignment of classes (inner: Composite/Assembly; childless:
-    Circle components under a block-like parent, else Composite; 2^n bit patterns), children at increasing locations; symbolic serial numbers, locations, temperatures:
-    every layout list is the pre-order walk in child order, indexInData counts per class, groupedComps groups in layout
-    order, computeAncestors gives back every real parent, Layout[sn] is that object's row"""
-    n = choose(n, 1, 4)
+@lemma(gen={"n": (1, 3), "p2": (0, 1), "tmask": (0, 7)}, stubs=STUBS)
+def layout_is_the_preorder_walk_up_to_3_nodes(n: int, p2: int, tmask: int):
+    """every tree shape with <= 3 nodes x EVERY assignment of classes (inner: Composite/Assembly; childless: Circle
+    components under a block-like parent, else Composite; 2^n bit patterns), child lists in sorted order; symbolic
+    serial numbers, locations, diameters, temperatures: every layout list is the pre-order walk in child order,
+    indexInData counts per class, groupedComps groups in layout order, computeAncestors gives back every real parent,
+    Layout[sn] is that object's row"""
+    n = choose(n, 1, 3)
     p2 = choose(p2, 0, 1 if n > 2 else 0)
-    p3 = choose(p3, 0, 2 if n > 3 else 0)
     tmask = choose(tmask, 0, 2 ** n - 1)
-    check_layout_in_child_order(n, [0, 0, p2, p3], tmask, True)
+    check_layout_in_child_order(n, [0, 0, p2], tmask, True)
+
+
+@lemma(gen={"p2": (0, 1), "p3": (0, 2), "tmask": (0, 15)}, stubs=STUBS)
+def layout_is_the_preorder_walk_4_nodes(p2: int, p3: int, tmask: int):
+    """the same for the 6 parent vectors with 4 nodes x all 16 class patterns"""
+    p2 = choose(p2, 0, 1)
+    p3 = choose(p3, 0, 2)
+    tmask = choose(tmask, 0, 15)
+    check_layout_in_child_order(4, [0, 0, p2, p3], tmask, True)
 
 
 TMASKS5 = [0, 31, 21, 10, 6, 25]
 
 
-@lemma(gen={"p2": (0, 1), "p3": (0, 2), "p4": (0, 3), "t": (0, 5)}, stubs=STUBS)
+@lemma(gen={"p2": (0, 1), "p3": (0, 2), "p4": (0, 3), "t": (0, 2)}, stubs=STUBS)
 def layout_is_the_preorder_walk_5_nodes(p2: int, p3: int, p4: int, t: int):
-    """the 24 parent vectors with 5 nodes x 6 class assignments (all one class, all the other, alternating, ...)"""
+    """the 24 parent vectors with 5 nodes x 3 class assignments (bit patterns 00000, 11111, 10101), serial numbers
+    7, 3, 9, 1, 5, everything else symbolic"""
     p2 = choose(p2, 0, 1)
     p3 = choose(p3, 0, 2)
     p4 = choose(p4, 0, 3)
-    t = choose(t, 0, 5)
-    check_layout_in_child_order(5, [0, 0, p2, p3, p4], TMASKS5[t], True)
+    t = choose(t, 0, 2)
+    check_layout_in_child_order(5, [0, 0, p2, p3, p4], TMASKS5[t], True, True)
+
+
+@lemma(gen={"p2": (0, 1), "p3": (0, 2), "p4": (0, 3), "t": (3, 5)}, stubs=STUBS)
+def layout_is_the_preorder_walk_5_nodes_other_classes(p2: int, p3: int, p4: int, t: int):
+    """the 24 parent vectors with 5 nodes x the class patterns 01010, 00110, 11001"""
+    p2 = choose(p2, 0, 1)
+    p3 = choose(p3, 0, 2)
+    p4 = choose(p4, 0, 3)
+    t = choose(t, 3, 5)
+    check_layout_in_child_order(5, [0, 0, p2, p3, p4], TMASKS5[t], True, True)
 
 
 # ---------------------------------------------------------------------------------------------- any child locations
-def check_layout_is_a_preorder_flattening(n, par, tmask):
-    """children at ARBITRARY locations (ties included): whatever order _createLayout gives the children, the flat lists
-    must still describe the same tree"""
+def check_layout_is_a_preorder_flattening(n, par, tmask, fixed_sns=False):
+    """children at ARBITRARY locations / diameters (ties included): whatever order _createLayout gives the children, the
+    flat lists must still describe the same tree.  Objects are found in the layout by their (concrete, unique) names."""
     bits = bits_of(n, tmask)
-    sns, locs, temps = symbols(n, par, False)
+    sns, locs, temps = symbols(n, par, False, fixed_sns)
     nodes = mk_tree(n, par, bits, sns, locs, temps)
     lay = Layout((layout.DB_MAJOR, layout.DB_MINOR), comp=nodes[0])
-    assert len(lay.serialNum) == n and len(lay.numChildren) == n and len(lay.type) == n and len(lay.indexInData) == n
+    assert len(lay.serialNum) == n and len(lay.numChildren) == n and len(lay.type) == n and len(lay.indexInData) == n and len(lay.name) == n
     pos = []
     for j in range(n):
-        where = [q for q in range(n) if lay.serialNum[q] == sns[j]]
+        where = [q for q in range(n) if lay.name[q] == "n%d" % j]
         assert len(where) == 1, "every object is laid out exactly once"
         pos.append(where[0])
     assert pos[0] == 0, "the root comes first"
     anc = Layout.computeAncestors(lay.serialNum, lay.numChildren)
+    assert len(anc) == n and anc[0] is None
+    own_ok, anc_ok, rows_ok = True, True, True
     for j in range(n):
         q = pos[j]
         c = cls_of(n, par, j, bits)
-        assert lay.numChildren[q] == len(kids(n, par, j)) and lay.type[q] == c.__name__ and lay.name[q] == "n%d" % j
-        sub = subtree(n, par, j)
+        own_ok = both(own_ok, own_entries_ok(lay, q, j, c, n, par, sns, locs, temps))
+        sub = preorder(n, par, j)
         assert sorted(pos[x] for x in sub) == list(range(q, q + len(sub))), "a subtree is one contiguous run starting at its root (pre-order)"
-        if j == 0:
-            assert anc[q] is None
-        else:
-            assert anc[q] is not None and anc[q] == sns[par[j]], "computeAncestors gives back the real parent"
+        if j > 0:
+            assert anc[q] is not None
+            is_p = anc[q] == sns[par[j]]
+            anc_ok = both(anc_ok, is_p)
         assert lay.indexInData[q] == len([x for x in range(n) if pos[x] < q and cls_of(n, par, x, bits) is c]), "index among the objects of its class"
         assert same(lay.groupedComps[c][lay.indexInData[q]], nodes[j]), "groupedComps[class][indexInData] is the object"
-        row = lay[sns[j]]
-        assert row[2] == sns[j] and row[4] == len(kids(n, par, j)) and row[3] == lay.indexInData[q]
-        if j > 0:
-            assert row[5] == layout.LOC_INDEX and tuple(row[6]) == (locs[j], 0, 0), "the object's own location travels with it"
+        rows_ok = both(rows_ok, row_is(lay, sns[j], q))
+    assert own_ok, "every object's own entries travel with it"
+    assert anc_ok, "computeAncestors gives back the real parent"
+    assert rows_ok, "Layout[sn]: that object's row"
 
 
 @lemma(gen={"n": (1, 4), "p2": (0, 1), "p3": (0, 2), "t": (0, 2)}, stubs=STUBS)
 def any_child_locations_layout_describes_the_same_tree_up_to_4_nodes(n: int, p2: int, p3: int, t: int):
-    """every tree shape with <= 4 nodes x 3 class assignments, children at ARBITRARY symbolic locations (the sorted() in
-    _createLayout may lay siblings out in another order - every outcome of the sort is followed): each object once, the
-    root first, every subtree a contiguous run, numChildren / type / name / indexInData / groupedComps of the object
-    itself, computeAncestors = the real parent, Layout[sn] = its row"""
+    """every tree shape with <= 4 nodes x 3 class assignments, children at ARBITRARY symbolic locations / diameters (the
+    sorted() in _createLayout may lay siblings out in another order - every outcome of the sort is followed): each
+    object once, the root first, every subtree a contiguous run, the object's own entries, indexInData / groupedComps,
+    computeAncestors = the real parent, Layout[sn] = its row; symbolic serial numbers"""
     n = choose(n, 1, 4)
     p2 = choose(p2, 0, 1 if n > 2 else 0)
     p3 = choose(p3, 0, 2 if n > 3 else 0)
@@ -299,21 +359,31 @@ def any_child_locations_layout_describes_the_same_tree_up_to_4_nodes(n: int, p2:
 
 @lemma(gen={"p2": (0, 1), "p3": (0, 2), "p4": (0, 3)}, stubs=STUBS)
 def any_child_locations_layout_describes_the_same_tree_5_composites(p2: int, p3: int, p4: int):
-    """the 24 parent vectors with 5 nodes, all Composite, arbitrary symbolic child locations"""
+    """the 24 parent vectors with 5 nodes, all Composite, arbitrary symbolic child locations; serial numbers 7, 3, 9, 1, 5"""
     p2 = choose(p2, 0, 1)
     p3 = choose(p3, 0, 2)
     p4 = choose(p4, 0, 3)
-    check_layout_is_a_preorder_flattening(5, [0, 0, p2, p3, p4], 0)
+    check_layout_is_a_preorder_flattening(5, [0, 0, p2, p3, p4], 0, True)
 
 
-@lemma(gen={"p2": (0, 1), "p3": (0, 2), "p4": (0, 3)}, stubs=STUBS)
+@lemma(gen={"p2": (0, 1), "p3": (0, 2), "p4": (0, 1)}, stubs=STUBS)
 def any_child_locations_layout_describes_the_same_tree_5_mixed(p2: int, p3: int, p4: int):
-    """the 24 parent vectors with 5 nodes, classes by the bit pattern 10101 (assemblies, circles under block-like
-    parents, composites), arbitrary symbolic child locations and circle diameters"""
+    """the parent vectors with 5 nodes whose last node hangs under node 0 or 1 (12 of 24), classes by the bit pattern
+    10101 (assemblies, circles under block-like parents, composites), arbitrary symbolic child locations and circle
+    diameters; serial numbers 7, 3, 9, 1, 5"""
     p2 = choose(p2, 0, 1)
     p3 = choose(p3, 0, 2)
-    p4 = choose(p4, 0, 3)
-    check_layout_is_a_preorder_flattening(5, [0, 0, p2, p3, p4], 21)
+    p4 = choose(p4, 0, 1)
+    check_layout_is_a_preorder_flattening(5, [0, 0, p2, p3, p4], 21, True)
+
+
+@lemma(gen={"p2": (0, 1), "p3": (0, 2), "p4": (2, 3)}, stubs=STUBS)
+def any_child_locations_layout_describes_the_same_tree_5_mixed_deep(p2: int, p3: int, p4: int):
+    """the other 12 parent vectors with 5 nodes (last node under node 2 or 3), same classes"""
+    p2 = choose(p2, 0, 1)
+    p3 = choose(p3, 0, 2)
+    p4 = choose(p4, 2, 3)
+    check_layout_is_a_preorder_flattening(5, [0, 0, p2, p3, p4], 21, True)
 
 
 # ---------------------------------------------------------------------------------------------- objects that cannot be ordered
